@@ -1052,6 +1052,64 @@ fn run_native_keys(ops: &[Op]) {
     }
 }
 
+// ---------------------------------------------------------------- callback_mutation (C04: a key function that changes the table being processed)
+// std.sorted_by_key / min_by_key / max_by_key over a global table, with a key function that appends `grow` entries to that
+// same table on every call.  The natives walk the table's key list and buckets through a borrow taken before the first
+// call; the insertions reallocate both.  Any outcome that is a value or an execution error is fine (the run is bounded by
+// the instruction budget); the real code dies with SIGSEGV, so the scenario runs in a child process.
+// ops[0] = (kind, grow - 1, _): kind % 3 = 0 sorted_by_key, 1 min_by_key, 2 max_by_key.
+fn callback_mutation_scenario(ops: &[Op]) {
+    let fname = ["sorted_by_key", "min_by_key", "max_by_key"][(ops[0].0 % 3) as usize];
+    let grow = 1 + (ops[0].1 % 1024) as i64;
+    let n = 6i64;
+    let arr: Vec<Card> = (0..n).map(|i| CardBody::ScalarInt(n - i).into()).collect();
+    let add = |a: Card, b: Card| -> Card { CardBody::Add(cao_lang::compiler::BinaryExpression::new([a, b])).into() };
+    let module = Module {
+        imports: vec![format!("std.{fname}")],
+        functions: vec![
+            ("main".to_string(), Function::default().with_cards(vec![
+                Card::set_global_var("t", CardBody::Array(arr)),
+                Card::set_global_var("c", Card::scalar_int(1000)),
+                Card::set_global_var("g_result", Card::call_function(fname, vec![CardBody::Function("keyfn".to_string()).into(), Card::read_var("t")])),
+            ])),
+            ("keyfn".to_string(), Function::default().with_arg("_key").with_arg("val").with_cards(vec![
+                Card::repeat(Card::scalar_int(grow), None, Card::composite_card("grow", vec![
+                    Card::set_global_var("c", add(Card::read_var("c"), Card::scalar_int(1))),
+                    Card::set_property(Card::read_var("c"), Card::read_var("t"), Card::read_var("c")),
+                ])),
+                Card::return_card(Card::read_var("val")),
+            ])),
+        ],
+        ..Default::default()
+    };
+    let program = compile(module, None).unwrap();
+    let mut vm = Vm::new(()).unwrap().with_max_iter(2_000_000);
+    let r = vm.run(&program);
+    println!("CHILD finished: {:?}", r.map(|_| ()).map_err(|e| e.payload));
+}
+
+fn run_callback_mutation(ops: &[Op]) {
+    if std::env::var("CAO_REPLAY_CHILD").is_ok() { callback_mutation_scenario(ops); return; }
+    let exe = std::env::current_exe().unwrap();
+    let txt: Vec<String> = ops[..1].iter().map(|o| format!("{}:{}:{}", o.0, o.1, o.2)).collect();
+    // a read of freed memory does not always kill an optimised build: run the child under valgrind's memcheck when it is
+    // installed (exit code 97 = memcheck reported an error), directly otherwise
+    let have_valgrind = std::process::Command::new("valgrind").arg("--version").output().map(|o| o.status.success()).unwrap_or(false);
+    let mut cmd = if have_valgrind {
+        let mut c = std::process::Command::new("valgrind");
+        c.args(["-q", "--error-exitcode=97"]).arg(&exe);
+        c
+    } else { std::process::Command::new(&exe) };
+    let out = cmd.args(["callback_mutation", "replay", "0", &txt.join(",")]).env("CAO_REPLAY_CHILD", "1").output().unwrap();
+    if !out.status.success() {
+        let fname = ["sorted_by_key", "min_by_key", "max_by_key"][(ops[0].0 % 3) as usize];
+        let err = String::from_utf8_lossy(&out.stderr);
+        let lines: Vec<&str> = err.lines().filter(|l| l.contains("Invalid read") || l.contains("Invalid write") || l.contains("free'd") || l.contains("native_")).take(3).map(|l| l.trim()).collect();
+        fail("callback_mutation", ops, 0, format!("std.{fname} over a 6-entry global table whose key function appends {} entries to that table per call: the process {} instead of returning a result or an error {}", 1 + ops[0].1 % 1024,
+            if out.status.code() == Some(97) { "read or wrote freed memory (valgrind memcheck)".to_string() } else { format!("terminated abnormally ({})", out.status) }, lines.join(" | ")));
+    }
+}
+
 fn dispatch(unit: &str, ops: &[Op], variant: u64) {
     VARIANT.store(variant, std::sync::atomic::Ordering::Relaxed);
     match unit {
@@ -1068,6 +1126,7 @@ fn dispatch(unit: &str, ops: &[Op], variant: u64) {
         "closure_capture" => run_closure_capture(ops),
         "gc_roots" => run_gc_roots(ops),
         "cyclic_table" => run_cyclic_table(ops),
+        "callback_mutation" => run_callback_mutation(ops),
         "native_keys" => run_native_keys(ops),
         "serde_roundtrip" => run_serde_roundtrip(ops, variant),
         _ => { eprintln!("unknown unit {unit}"); std::process::exit(2); }
@@ -1095,6 +1154,12 @@ fn main() {
         // nine shapes: each spawns a child process
         for kind in 0..3u8 { for len in 0..3u64 { dispatch(unit, &[(kind, len, 0)], 0); } }
         println!("OK comparing, hashing and converting tables that contain themselves (cycle length 1..3) returned normally");
+        return;
+    }
+    if unit == "callback_mutation" {
+        // a few shapes: each spawns a child process
+        for kind in 0..3u8 { for grow in [0u64, 2, 9, 39] { dispatch(unit, &[(kind, grow, 0)], 0); } }
+        println!("OK key functions that append to the table being processed returned normally");
         return;
     }
     let mut rng = Rng(seed.wrapping_mul(0x9E3779B97F4A7C15) | 1);
